@@ -76,6 +76,10 @@ func run(r *lib.Run) {
 			cw.Add(1)
 			go func(i int) { defer cw.Done(); stopDuringRefresh(r, i) }(i)
 		}
+		for i := 0; i < r.Pick(2, 6); i++ {
+			cw.Add(1)
+			go func(i int) { defer cw.Done(); emptyTableWithInitCheck(r, i) }(i)
+		}
 		cw.Wait()
 	}()
 	wg.Wait()
